@@ -153,7 +153,7 @@ theorem callErr2_succ (L : Laws2 D) {n : Nat} (ih : ExprOK2 D n) (ihe : ExprErr2
   · -- wrong number of arguments
     obtain ⟨rfl, hne, hg, hsz, hpre⟩ := bindArgs_err_inv _ _ _ _ _ _ hb
     obtain ⟨f, cst, cst1, co, formals, bodyD, p, bcode, caps, a1, a2, a3, a4, a5, a6, a7, a8, a9, a10, a11, a12, a13,
-      a14, a15, a16, a17⟩ := hclos
+      a14, a15, a16, a17, _⟩ := hclos
     obtain ⟨hpb, hpa, hpro⟩ := lambdaParts_inv a1
     have hpro1 : p.prologue = [.op .enter] := by rw [hpro, a3]; rfl
     obtain ⟨hcode, hinfo⟩ := hi.loaded _ _ a8
